@@ -24,6 +24,8 @@ from concurrent.futures import ThreadPoolExecutor
 VERIF = os.path.dirname(os.path.dirname(os.path.abspath(__file__)))
 COQ = os.path.join(VERIF, "coq")
 BUILD = os.path.join(VERIF, "build")
+# where evidence/ and replays/ are written: /verif itself, except for mutant runs (scripts/seed_eval.py)
+OUT = os.environ.get("VERIF_OUT", VERIF)
 REPO = os.environ.get("FROUROS_REPO", "/repo")
 COQ_W = "-notation-overridden,-inexact-float,-deprecated-hint-without-locality,-deprecated-instance-without-locality"
 
@@ -277,7 +279,7 @@ def coq_eval(name: str, header: str, exprs, shard=400, timeout=600, jobs=16):
     shards = [exprs[i : i + shard] for i in range(0, len(exprs), shard)] or [[]]
     files = []
     for k, sh_exprs in enumerate(shards):
-        fn = os.path.join(BUILD, f"cases_{name}_{k}.v")
+        fn = os.path.join(BUILD, f"cases_{name}_{os.getpid()}_{k}.v")
         with open(fn, "w") as f:
             f.write(header + "\n")
             for ex in sh_exprs:
@@ -442,8 +444,8 @@ class Check:
         self.corr_fail.append((what, detail))
 
     def finish(self):
-        os.makedirs(os.path.join(VERIF, "evidence"), exist_ok=True)
-        os.makedirs(os.path.join(VERIF, "replays", self.pid), exist_ok=True)
+        os.makedirs(os.path.join(OUT, "evidence"), exist_ok=True)
+        os.makedirs(os.path.join(OUT, "replays", self.pid), exist_ok=True)
         proof = self.proof or dict(ok=False, theorems=[], axioms=[], log="proofs not checked")
         lines = []
         for kid, (k, detail) in sorted(self.known_hits.items()):
@@ -515,7 +517,7 @@ class Check:
             wall_s=round(wall, 2),
             violations=nviol,
         )
-        with open(os.path.join(VERIF, "evidence", f"{self.pid}.json"), "w") as f:
+        with open(os.path.join(OUT, "evidence", f"{self.pid}.json"), "w") as f:
             json.dump(ev, f, indent=1, default=str)
         for ln in lines:
             print(ln)
@@ -529,7 +531,7 @@ class Check:
     def _replay(self, obj):
         blob = json.dumps(obj, sort_keys=True, default=str)
         h = hashlib.sha1(blob.encode()).hexdigest()[:12]
-        path = os.path.join(VERIF, "replays", self.pid, f"{h}.json")
+        path = os.path.join(OUT, "replays", self.pid, f"{h}.json")
         with open(path, "w") as f:
             json.dump(obj, f, indent=1, default=str)
         return path
